@@ -31,7 +31,7 @@ one certificate (IP SANs) whose CA is trusted through SSL_CERT_FILE, so the unmo
 
 type route struct {
 	resp  string // raw response bytes
-	fault string // "", "cut:<k>:eof", "cut:<k>:reset", "cut:<k>:stall", "stall", "trickle:<ms>", "nohandshake"
+	fault string // "", "cut:<k>:eof", "cut:<k>:reset", "cut:<k>:stall", "stall", "trickle:<ms>", "slowtail:<k>:<ms>", "nohandshake"
 }
 
 type simulator struct {
@@ -190,6 +190,24 @@ func (s *simulator) handle(raw net.Conn, cfg *tls.Config, authority string) {
 				return
 			}
 			time.Sleep(time.Duration(ms) * time.Millisecond)
+		}
+		conn.Close()
+	case strings.HasPrefix(rt.fault, "slowtail:"):
+		/* the first k bytes at once, the rest one byte every ms milliseconds: every gap is
+		   shorter than the timeout, the whole response takes several timeouts */
+		var k, ms int
+		fmt.Sscanf(rt.fault, "slowtail:%d:%d", &k, &ms)
+		if k > len(body) {
+			k = len(body)
+		}
+		if _, err := conn.Write(body[:k]); err != nil {
+			return
+		}
+		for i := k; i < len(body); i++ {
+			time.Sleep(time.Duration(ms) * time.Millisecond)
+			if _, err := conn.Write(body[i : i+1]); err != nil {
+				return
+			}
 		}
 		conn.Close()
 	case strings.HasPrefix(rt.fault, "cut:"):
